@@ -200,6 +200,27 @@ def read_edit_readd():
                     yield {"doc": d, "ops": [g, ["del", 0, (fi + 1) % 3, 0], ["set", 0, 0, "m", 1]], "view": True, "blind": True}
 
 
+def near_identical_assignments():
+    """A field is assigned a value that differs from the one it holds only where it still
+    matters: a leading newline (the 'Field:' + continuation-lines layout), blanks at the end of
+    the last line, the continuation marker, a comment line inside - the assignment must show."""
+    pairs = [("\n c\n", "c"), (" c\n", "\n c"), (" a\n b\n", "a\n b  "), (" a\n b\n", "a\n b\t"),
+             (" a\n b  \n", "a\n b"), (" a\n b\n", "a\n\tb"), (" a\n b\n", "a\n  b"), (" a\n b\n", "\n a\n b"),
+             ("\n a\n b\n", "a\n b"), (" a\n# ic\n b\n", "a\n b"), (" a\n b\n", "a\n b\n c"), (" a\n b\n c\n", "a\n b"),
+             (" a\n .\n b\n", "a\n b"), (" a b\n", "a  b"), (" a\n", "A")]
+    for body, val in pairs:
+        for c in ("", "# c\n"):
+            for last in (False, True):
+                p = [{"n": "Alpha", "c": c, "b": body}] + ([] if last else [{"n": "Beta", "c": "", "b": " z\n"}])
+                for fin in (True, False):
+                    d = {"lead": "", "paras": [p], "seps": [], "tail": "", "final_nl": fin}
+                    for route in (None, "view", "view-noresolve", "raw", "simple"):
+                        for mode in (0, 1, 3):
+                            yield {"doc": d, "ops": [["set", 0, 0, val, mode, route]], "view": False}
+                            yield {"doc": d, "ops": [["set", 0, 0, val, mode, route], ["set", 0, 0, val, 0, route]],
+                                   "view": False, "blind": True}
+
+
 def same_assignment_twice():
     """The same field set to the same value in two paragraphs (one of them with comment lines,
     the other without), then set again / deleted / replaced in one of them: what was built for
@@ -224,9 +245,12 @@ def sources(tier):
     if tier == "quick":
         return [Enum("small-docs", small_docs, "1-2 paragraphs x 4 bodies^2 x 8 ops (+ second op)"),
                 Enum("read-edit-readd", read_edit_readd, "blind histories: read (4 forms x 3 key forms) then delete/replace/clear then add, 3 fields x 2 endings"),
-                Enum("same-assignment-twice", same_assignment_twice, "the same field set to the same value in two paragraphs (4 values x 4 routes) then six follow-ups, with and without comments"),
+                Enum("near-identical-assignments", near_identical_assignments, "15 (held text, new value) pairs differing only in a leading newline, trailing blanks, markers or inner lines x comment x position x ending x 5 routes x 3 key forms"),
+                Enum("near-identical-assignments", near_identical_assignments, "15 (held text, new value) pairs differing only in a leading newline, trailing blanks, markers or inner lines x comment x position x ending x 5 routes x 3 key forms"),
+            Enum("same-assignment-twice", same_assignment_twice, "the same field set to the same value in two paragraphs (4 values x 4 routes) then six follow-ups, with and without comments"),
                 Hyp("doc-histories", case, 400, shards=8)]
     return [Enum("small-docs", small_docs, "1-2 paragraphs x 4 bodies^2 x 8 ops (+ second op)"),
             Enum("read-edit-readd", read_edit_readd, "blind histories: read (4 forms x 3 key forms) then delete/replace/clear then add, 3 fields x 2 endings"),
+            Enum("near-identical-assignments", near_identical_assignments, "15 (held text, new value) pairs differing only in a leading newline, trailing blanks, markers or inner lines x comment x position x ending x 5 routes x 3 key forms"),
             Enum("same-assignment-twice", same_assignment_twice, "the same field set to the same value in two paragraphs (4 values x 4 routes) then six follow-ups, with and without comments"),
             Hyp("doc-histories", case, 10000, shards=16)]
